@@ -145,6 +145,21 @@ Definition result_beq (r s : result) : bool :=
   | Err ValueErr, Err ValueErr => true
   | _, _ => false
   end.
+(* equality up to the order of members that print the same (when str is not injective the
+   order inside a group of equal keys follows the set iteration order, which is not modelled) *)
+Definition value_seteq (v w : value) : bool :=
+  match v, w with
+  | VUnion l, VUnion m =>
+      Nat.eqb (length l) (length m) &&
+      forallb (fun a => existsb (atom_beq a) m) l && forallb (fun a => existsb (atom_beq a) l) m &&
+      list_beq String.eqb (map a_str l) (map a_str m)
+  | _, _ => value_beq v w
+  end.
+Definition result_seteq (r s : result) : bool :=
+  match r, s with
+  | Ok v, Ok w => value_seteq v w
+  | _, _ => result_beq r s
+  end.
 Definition iout_beq (x y : iout) : bool :=
   match x, y with
   | OIter, OIter => true
